@@ -2,6 +2,7 @@
 """tools/trybenign.py <root> : every <root>/*/out/r*/patch.diff is a behaviour-preserving refactoring; apply each to a scratch copy of /repo
 and run ALL checks: anything but exit 0 is reported (VIOLATION = false alarm of the machinery, exit 2 = dialect too narrow)"""
 import subprocess, os, sys, shutil, tempfile, re, json, concurrent.futures
+os.environ.setdefault("VERIF_CACHE", "/tmp/hannibal-vcache")  # memoize verifier runs by generated-file hash (corpus tools only)
 ROOT = os.path.dirname(os.path.dirname(os.path.abspath(__file__)))
 root = sys.argv[1]
 props = [c["property_id"] for c in json.load(open(os.path.join(ROOT, "MANIFEST.json")))["checks"]]
